@@ -65,6 +65,9 @@ const (
 	sigStableDead    = "C13/e2e/quiescent-divergence/stable-dead-stream"   // connected, a client registered, nothing queued, and the pushed change never arrives
 	sigLinkStableDead = "C13/link/quiescent-divergence/stable-dead-stream" // the same on the gated link layer
 	sigMsgStableDead  = "C13/active/stream/change-pushed-while-connected-not-sent/stable-dead-stream"
+	// the standby reported the link up after a (re)connection in which a snapshot request was failed, the
+	// active is quiet, the sentinel came through the stream, and the tables differ
+	sigAfterSnapFault = "C13/e2e/quiescent-divergence/stable-after-snapshot-fault"
 )
 
 // storeFP is a fingerprint of a session store's content (part of the state sampled by pollWatch).
